@@ -161,9 +161,20 @@ def check_return_not_advanced(run, repo):
     ok = True
     markers = set()
     advs = tr.of('ItAdvance')
+    def conjuncts(g):
+        # `if a and b:` taken, or `if not (a or b):` ... : one guard entry, several facts
+        t, pol = g[0], g[1]
+        if pol and t[0] == 'and':
+            for x in t[1]:
+                yield from conjuncts((x, True, g[2]))
+        elif not pol and t[0] == 'or':
+            for x in t[1]:
+                yield from conjuncts((x, False, g[2]))
+        else:
+            yield g
     for a in advs:
         mine = []
-        for g in a.guards:
+        for g in [c for g0 in a.guards for c in conjuncts(g0)]:
             if in_it(g[0]) or g[0][0] == 'finally':
                 continue
             mg = _marker_guard(g)
